@@ -16,13 +16,17 @@ def model_check(wd):
     return r
 
 
-def generate(wd, depth, simulate=None, seed=None):
-    cfg = os.path.join(wd, "Gen_Activation_%d.cfg" % depth)
-    src = open(os.path.join(core.SPEC, "Gen_Activation.cfg")).read().replace("Depth = 3", "Depth = %d" % depth)
+def generate(wd, depth, simulate=None, seed=None, module="Gen_Activation", subst=None):
+    import re
+    cfg = os.path.join(wd, "%s_%d_%s.cfg" % (module, depth, "sim" if simulate else "bfs"))
+    src = open(os.path.join(core.SPEC, module + ".cfg")).read()
+    src = re.sub(r"Depth = \d+", "Depth = %d" % depth, src)
+    for k, val in (subst or {}).items():
+        src = re.sub(r"%s = \d+" % k, "%s = %d" % (k, val), src)
     open(cfg, "w").write(src)
-    r = core.tlc("Gen_Activation", cfg=cfg, wd=wd, workers=1, timeout=900, simulate=simulate, seed=seed, depth=(depth + 2 if simulate else None))
-    if r.rc != 0 and not simulate:
-        raise core.ToolError("Gen_Activation failed:\n" + core.tail(r.out))
+    r = core.tlc(module, cfg=cfg, wd=wd, workers=1, timeout=900, simulate=simulate, seed=seed, depth=(depth + 2 if simulate else None))
+    if (r.rc != 0 and not simulate) or r.violated:
+        raise core.ToolError("%s failed:\n" % module + core.tail(r.out))
     seen, plans = set(), []
     for p in core.plans_from_printed(r):
         k = json.dumps(p, sort_keys=True)
@@ -52,3 +56,32 @@ def run_and_decode(wd, plans_path, seed, tag="act"):
 
 def blob_sides(blobs):
     return [json.loads(l)["side"] for l in open(blobs) if l.strip()]
+
+
+HAPPY = [{"kind": "DemandActive"}, {"kind": "Sync"}, {"kind": "Control", "action": 4}, {"kind": "Control", "action": 2}, {"kind": "FontMap"}]
+
+
+def happy_prefix():
+    return [{"srv": dict(m)} for m in HAPPY]
+
+
+def report_rejects(v, rejects, tag):
+    for r in rejects:
+        ev = json.loads(r["event"])
+        run_id = json.loads(r["run_events"][0]).get("run")
+        key = "%s:%s:%s:%s" % (tag, r["kind"], ev.get("ev"), ev.get("state"))
+        v.violation(key, "recorded run %s is not a behaviour of Activation (first unmatched event #%d: %s)%s" % (
+            run_id, r["event_index_in_run"], r["event"][:400], (" invariant " + r["what"]) if r["what"] else ""),
+            {"run": run_id, "events": r["run_events"], "tlc": r["tlc_tail"]})
+
+
+def check_server_blobs(blobs, dec):
+    sides = blob_sides(blobs)
+    bad = [i for i, d in enumerate(dec) if sides[i] == "s" and not d.get("ok")]
+    if bad:
+        raise core.ToolError("reference peer produced %d frames the server grammar rejects, e.g. %s" % (len(bad), dec[bad[0]]))
+    return sides
+
+
+def malformed_client_blobs(sides, dec):
+    return [(i + 1, d.get("why")) for i, d in enumerate(dec) if sides[i] == "c" and not d.get("ok")]
